@@ -7,6 +7,8 @@ pub mod pretty;
 pub mod recorder;
 pub mod resolver;
 pub mod simplify;
+#[cfg(feature = "verif")]
+pub mod verif;
 
 pub use compiler::Compiler;
 pub use format::format_program;
